@@ -265,52 +265,57 @@ Proof.
   rewrite <- app_assoc. reflexivity.
 Qed.
 
+Lemma uri_fits_seen l : uri_fits l = true -> uri_fits (uri_seen l) = true.
+Proof. destruct l; [reflexivity|auto]. Qed.
+
 Lemma uri_spec_path_of_get l :
-  Forall wfb l -> uri_no_dots l -> uri_spec_path (uri_get_path l) = Some (uri_seen l).
+  Forall wfb l -> uri_fits l = true -> uri_no_dots l ->
+  uri_spec_path (uri_get_path l) = Some (uri_seen l).
 Proof.
-  intros Hl Hd.
+  intros Hl Hf Hd.
   pose proof (uri_raw_of_join uri_unesc_path uri_path_un_pct 47 uri_path_sep_ok uri_path_stop l Hl
                 eq_refl uri_path_emitted_nostop) as R.
   change (uri_decode_all (uri_raw_path_segs (uri_get_path l)) = Some (uri_seen l)) in R.
-  unfold uri_spec_path. rewrite R.
+  unfold uri_spec_path. rewrite R, (uri_fits_seen l Hf).
   assert (Hs : uri_no_dots (uri_seen l)).
   { destruct l; [|exact Hd]. intros d [<-|[]]. split; reflexivity. }
   rewrite (uri_resolve_no_dots _ [] Hs), app_nil_r, rev_involutive. reflexivity.
 Qed.
 
 Lemma uri_spec_query_of_get l :
-  Forall wfb l -> uri_spec_query (uri_get_query l) = Some (uri_seen l).
+  Forall wfb l -> uri_fits l = true -> uri_spec_query (uri_get_query l) = Some (uri_seen l).
 Proof.
-  intros Hl.
+  intros Hl Hf.
   pose proof (uri_raw_of_join uri_unesc_query uri_query_un_pct 38 uri_query_sep_ok uri_query_stop l
                 Hl eq_refl uri_query_emitted_nostop) as R.
-  exact R.
+  change (uri_decode_all (uri_raw_query_items (uri_get_query l)) = Some (uri_seen l)) in R.
+  unfold uri_spec_query. rewrite R, (uri_fits_seen l Hf). reflexivity.
 Qed.
 
 Theorem uri_get_path_feeds_back l buflen :
-  Forall wfb l -> uri_no_dots l -> uri_path_need (uri_get_path l) <= buflen ->
+  Forall wfb l -> uri_fits l = true -> uri_no_dots l -> uri_path_need (uri_get_path l) <= buflen ->
   uri_path_to_opts (uri_get_path l) buflen = UOk (uri_encs (uri_norm l)).
 Proof.
-  intros Hl Hd Hn. unfold uri_path_to_opts.
+  intros Hl Hf Hd Hn. unfold uri_path_to_opts.
   destruct (uri_get_path l) as [|c s] eqn:E.
   - rewrite (uri_join_empty uri_unesc_path 47 l E). reflexivity.
   - assert (Hne : uri_get_path l <> []) by (rewrite E; discriminate).
     rewrite <- E. rewrite <- E in Hn.
-    rewrite (uri_split_path_spec _ buflen _ (uri_spec_path_of_get l Hl Hd) Hn).
+    rewrite (uri_split_path_spec _ buflen _ (uri_spec_path_of_get l Hl Hf Hd) Hn).
     cbn [uri_bind fst]. f_equal. f_equal.
     destruct l as [|[|? ?] [|? ?]]; try reflexivity; exfalso; apply Hne; reflexivity.
 Qed.
 
 Theorem uri_get_query_feeds_back l buflen :
-  Forall wfb l -> uri_query_need (uri_get_query l) <= buflen ->
+  Forall wfb l -> uri_fits l = true -> uri_query_need (uri_get_query l) <= buflen ->
   uri_query_to_opts (uri_get_query l) buflen = UOk (uri_encs (uri_norm l)).
 Proof.
-  intros Hl Hn. unfold uri_query_to_opts.
+  intros Hl Hf Hn. unfold uri_query_to_opts.
   destruct (uri_get_query l) as [|c s] eqn:E.
   - rewrite (uri_join_empty uri_unesc_query 38 l E). reflexivity.
   - assert (Hne : uri_get_query l <> []) by (rewrite E; discriminate).
     rewrite <- E. rewrite <- E in Hn.
-    rewrite (uri_split_query_spec _ buflen _ (uri_spec_query_of_get l Hl) Hn).
+    rewrite (uri_split_query_spec _ buflen _ (uri_spec_query_of_get l Hl Hf) Hn).
     cbn [uri_bind fst]. f_equal. f_equal.
     destruct l as [|[|? ?] [|? ?]]; try reflexivity; exfalso; apply Hne; reflexivity.
 Qed.
